@@ -1,19 +1,21 @@
 """C12 — correspondence of the `fit` state machine (QV.Model.Train.fit) with NeuralStateBase.fit:
-event protocol, dispatch order, stop requests, parameter-change window, scheduler steps, Timer lines.
+event protocol, dispatch order, stop requests, parameter-change window, scheduler steps; LambdaCallback construction / dispatch.
 
-The real `fit` runs on tiny states with recording callbacks (LambdaCallback and CallbackBase subclasses), a
-recording SGD subclass (optimizer=), a counting scheduler class (scheduler=), torch.randperm wrapped in-process
-(one call per `_shuffle_data`), stdout captured for the Timer. Stop requests are injected by a chosen callback at
-a chosen event, or from inside `optimizer.step()` ("during the batch").
+The real `fit` runs on tiny states with recording callbacks (LambdaCallback given all or a SUBSET of the six handlers, CallbackBase
+subclasses overriding all or some methods), a recording SGD subclass (optimizer=, parameter hash on entry and exit of every step), a
+counting scheduler class (scheduler=), `compute_batch_gradients` wrapped on the instance (the point before the update). Stop requests are
+injected by a chosen callback at a chosen event, before the update (from the gradient computation) or after it (inside `optimizer.step()`).
+What is compared: handler invocations (who, which event, which arguments, flag seen, parameter version), optimizer and scheduler steps,
+final flag. NOT compared (not in the property): what is printed (Timer wording), where the data are shuffled / which RNG calls are made.
 
 A case is a SESSION: one state object and one or more consecutive `fit` calls on it (model: QV.Train.session). Each call has
-its own arguments: data (N rows, container form), pos/neg batch sizes, `callbacks=` container form (None / list / tuple /
+its own arguments: data (N rows incl. N = 0, container form), pos/neg batch sizes, `callbacks=` container form (None / list / tuple /
 CallbackList / iterator; a later call may pass the very same container object again), time, scheduler, starting_epoch/epochs,
-stop injections, and what the caller does to the flag before it (nothing / `stop_training = True` / `= False`)."""
+stop injections, and what the caller does to the flag before it (nothing / `stop_training = True` / `= False`).
+A second stream exercises the LambdaCallback constructor (arity by `inspect.signature`, non-callables, None)."""
 import contextlib
 import hashlib
 import io
-import re
 
 import numpy as np
 
@@ -106,26 +108,6 @@ def ref_events(start, epochs, nb, stop0, requested):
     else:
         closing = []
     return pre + closing, True
-
-
-def ref_timer(start, epochs, nb, stop0, requested):
-    """expected Timer lines (timer.py): the first batch-end / epoch-end dispatched with the flag set is announced once; then the total.
-    Independent of log and model: derived from the first requested point of the reference run."""
-    if stop0:
-        return []
-    pts = ref_points(start, epochs, nb)
-    p = next((q for q in pts if requested(q)), None)
-    if p is None or p[0] == "te":
-        return [["total"]]
-    if p[0] == "ts":
-        if start > epochs:
-            return [["total"]]
-        return ([["tb", start, 0]] if nb >= 1 else [["tep", start]]) + [["total"]]
-    if p[0] == "es":
-        return ([["tb", p[1], 0]] if nb >= 1 else [["tep", p[1]]]) + [["total"]]
-    if p[0] in ("bs", "mid", "be"):
-        return [["tb", p[1], p[2]], ["total"]]
-    return [["tep", p[1]], ["total"]]
 
 
 # ------------------------------------------------------------------ building the real objects
@@ -313,29 +295,6 @@ def make_scheduler_class(rec):
     return CountingScheduler
 
 
-TIMER_RE = [
-    (re.compile(r"^Training terminated at epoch: (-?\d+), batch: (\d+)$"), lambda m: ["tb", int(m.group(1)), int(m.group(2))]),
-    (re.compile(r"^Training terminated at epoch: (-?\d+)$"), lambda m: ["tep", int(m.group(1))]),
-    (re.compile(r"^Total time elapsed during training:\s*[-\d.]+ s$"), lambda m: ["total"]),
-]
-
-
-def parse_prints(text):
-    out = []
-    for line in text.splitlines():
-        line = line.strip()
-        if not line:
-            continue
-        for rx, f in TIMER_RE:
-            m = rx.match(line)
-            if m:
-                out.append(f(m))
-                break
-        else:
-            out.append(["other", line[:80]])
-    return out
-
-
 def make_container(cb_list, form):
     """the `callbacks=` argument in the given container form"""
     from qucumber.callbacks import CallbackList
@@ -381,7 +340,7 @@ def strip_model_log(mlog):
         t = en[0]
         if t == "call":
             out.append(["call", en[1], en[2], en[3], en[4]])
-        elif t in ("opt", "sched", "shuffle"):
+        elif t in ("opt", "sched"):  # where the data are shuffled (RNG use) is not part of the event protocol: not compared
             out.append([t])
     return out
 
@@ -481,12 +440,6 @@ def one_call(ctx, case, kind, st, rng, hold, objs, run, r_idx, sess, m, specs):
     rec.hashes[h_before] = 0
     data_obj = container(data, run["form"]) if N else empty_container(run["form"])
     bases_a = np.array(bases) if bases is not None else None
-    orig_randperm = torch.randperm
-
-    def rp(*a, **k):
-        rec.log.append(["shuffle"])
-        return orig_randperm(*a, **k)
-
     orig_cbg = st.compute_batch_gradients
 
     def cbg(*a, **k):  # the point BEFORE the update of the batch in progress
@@ -499,7 +452,6 @@ def one_call(ctx, case, kind, st, rng, hold, objs, run, r_idx, sess, m, specs):
 
     buf = io.StringIO()
     err = None
-    torch.randperm = rp
     st.compute_batch_gradients = cbg  # instance attribute shadows the method for this call only
     try:
         with contextlib.redirect_stdout(buf):
@@ -510,9 +462,9 @@ def one_call(ctx, case, kind, st, rng, hold, objs, run, r_idx, sess, m, specs):
     except Exception as e:  # fit is not expected to raise on these inputs
         err = f"{type(e).__name__}: {e}"
     finally:
-        torch.randperm = orig_randperm
         del st.compute_batch_gradients
-    prints = parse_prints(buf.getvalue())
+    # what the Timer (or anything else) prints is not part of the property: only counted, never compared
+    printed_lines = sum(1 for ln in buf.getvalue().splitlines() if ln.strip())
     final = {"stop": bool(st.stop_training), "ver": rec.opt_steps, "sched": rec.sched_steps}
     h_after = param_hash(st)
     if run["cb_form"] in ("list", "tuple", "cblist"):  # frame: the caller's container still holds exactly the callbacks it listed
@@ -656,9 +608,6 @@ def one_call(ctx, case, kind, st, rng, hold, objs, run, r_idx, sess, m, specs):
                 k_opt += 1
         ctx.oracle("flag seen by handlers == OR of requests so far (sticky)", ok_seen and final["stop"] == run_flag, case,
                    sig=f"{sig}/sticky", theorem="C12_sticky")
-        if timer and not stop0:
-            want = ref_timer(start, epochs, nb, stop0, requested)
-            ctx.oracle("Timer lines", prints == want, case, detail={"impl": prints, "expected": want}, sig=f"{sig}/timer-oracle")
     ctx.oracle("final flag", final["stop"] == exp_stop, case, detail={"impl": final["stop"], "expected": exp_stop},
                sig=f"{sig}/final-flag", theorem="C12_sticky")
     n_bs = sum(1 for ev in exp_events if ev[0] == "bs")
@@ -667,15 +616,31 @@ def one_call(ctx, case, kind, st, rng, hold, objs, run, r_idx, sess, m, specs):
     ctx.oracle("one scheduler step per epoch begun", final["sched"] == (begun if sched else 0), case,
                detail={"steps": final["sched"], "epochs_begun": begun}, sig=f"{sig}/sched-count", theorem="C12_scheduler_once_per_epoch")
     # batches per epoch: every epoch that is not cut short by a stop has ceil(N / pos_batch_size) optimizer steps
-    per_epoch = []
-    for en in rec.log:
-        if en[0] == "shuffle":
-            per_epoch.append(0)
-        elif en[0] == "opt" and per_epoch:
-            per_epoch[-1] += 1
-    full = per_epoch[:-1] if exp_stop and not stop0 else per_epoch
-    ctx.oracle("every uninterrupted epoch has ceil(N / pos_batch_size) batches", all(x == nb for x in full) and len(per_epoch) == begun,
-               case, detail={"per_epoch": per_epoch, "expected": nb}, sig=f"{sig}/batches-per-epoch", theorem="C12_batches_per_epoch")
+    # (epochs are delimited by the scheduler steps, or by the epoch-end calls of a callback that sees every event; without either the
+    # total number of optimizer steps above is the only observation)
+    per_epoch = None
+    if sched:
+        per_epoch, cur = [], 0
+        for en in rec.log:
+            if en[0] == "opt":
+                cur += 1
+            elif en[0] == "sched":
+                per_epoch.append(cur)
+                cur = 0
+    elif L:
+        per_epoch, cur = [], 0
+        for en in rec.log:
+            if en[0] == "opt":
+                cur += 1
+            elif en[0] == "call" and en[1] == cbs[0] and en[2][0] == "ee":
+                per_epoch.append(cur)
+                cur = 0
+        per_epoch = per_epoch[::cbs.count(cbs[0])] if cbs.count(cbs[0]) > 1 else per_epoch
+    full = []
+    if per_epoch is not None:
+        full = per_epoch[:-1] if exp_stop and not stop0 else per_epoch
+        ctx.oracle("every uninterrupted epoch has ceil(N / pos_batch_size) batches", all(x == nb for x in full) and len(per_epoch) == begun,
+                   case, detail={"per_epoch": per_epoch, "expected": nb}, sig=f"{sig}/batches-per-epoch", theorem="C12_batches_per_epoch")
     # scheduler position: after the last optimizer step of the epoch and before the epoch-end calls
     if sched and L:
         ok_pos = True
@@ -689,35 +654,9 @@ def one_call(ctx, case, kind, st, rng, hold, objs, run, r_idx, sess, m, specs):
         ctx.oracle("scheduler step sits between the last batch-end and the epoch-end", ok_pos, case,
                    sig=f"{sig}/sched-position", theorem="C12_scheduler_once_per_epoch")
     if stop0:
-        ctx.oracle("stopped run is a no-op", rec.log == [] and prints == [] and h_after == h_before and final["stop"], case,
-                   detail={"log": rec.log[:10], "prints": prints}, sig=f"{sig}/noop", theorem="C12_stopped_run_is_noop, C12_session_stopped")
-    if timer and not stop0:
-        first_set = None
-        if L:
-            run_flag, k_opt, in_group = False, 0, 0
-            for en in rec.log:
-                if en[0] == "opt":
-                    if k_opt in rec.inject_mid or k_opt in rec.inject_pre:
-                        run_flag = True
-                    k_opt += 1
-                elif en[0] == "call":
-                    if any(i == en[1] and ev == en[2] for i, ev in inj_cb):
-                        run_flag = True
-                    in_group += 1
-                    if in_group == L:  # the Timer runs after the last user callback of this dispatch
-                        in_group = 0
-                        if run_flag and first_set is None and en[2][0] in ("be", "ee"):
-                            first_set = en[2]
-            want = ([["tb", first_set[1], first_set[2]]] if first_set and first_set[0] == "be" else
-                    [["tep", first_set[1]]] if first_set else []) + [["total"]]
-            ctx.oracle("Timer lines", prints == want, case, detail={"impl": prints, "expected": want}, sig=f"{sig}/timer-oracle")
-            want2 = ref_timer(start, epochs, nb, stop0, requested)
-            ctx.oracle("Timer lines (reference)", prints == want2, case, detail={"impl": prints, "expected": want2}, sig=f"{sig}/timer-oracle")
-        else:
-            ctx.oracle("Timer prints total", prints[-1:] == [["total"]], case, detail={"impl": prints}, sig=f"{sig}/timer-oracle")
-    if not timer:
-        ctx.oracle("no Timer output without time=True", prints == [], case, detail={"impl": prints}, sig=f"{sig}/timer-oracle")
-
+        ctx.oracle("stopped run is a no-op", rec.log == [] and h_after == h_before and final["stop"], case,
+                   detail={"log": rec.log[:10]}, sig=f"{sig}/noop", theorem="C12_stopped_run_is_noop, C12_session_stopped")
+    ctx.count(f"stdout_lines(time={timer})={min(printed_lines, 3)}")
     # ---------------- correspondence with the model (QV.Train.session; this call's entry)
     if m is not None:
         if "error" in m:
@@ -745,7 +684,6 @@ def one_call(ctx, case, kind, st, rng, hold, objs, run, r_idx, sess, m, specs):
         ctx.point("callbacks reached", "property", sorted({c[1] for c in calls}) if exp_events else [],
                   sorted(i for i in set(m["cbs"]) if reach(i)) if exp_events else [],
                   case, exact=True, sig=f"{sig}/callbacks-reached", theorem="C12_callbacks_container")
-        ctx.point("timer_prints", "aux", prints, m["prints"], case, exact=True, sig=f"{sig}/timer")
 
 
 # ------------------------------------------------------------------ generation
@@ -988,48 +926,58 @@ def ctor_case(ctx, case):
     exp = None
     for tag, a in zip(SLOTS, args):
         if a is not None and a[0] == "nc":
-            exp = ["TypeError", SLOT_NAME[tag]]
+            exp = "TypeError"
             break
         if a is not None and a[2] != SLOT_ARGS[tag]:
-            exp = ["ValueError", SLOT_NAME[tag]]
+            exp = "ValueError"
             break
     err, cb = None, None
     try:
         cb = LambdaCallback(**{SLOT_NAME[tag]: f for tag, f in zip(SLOTS, fns)})
     except (ValueError, TypeError) as e:
-        names = [nm for nm in SLOT_NAME.values() if re.search(r"\b" + nm + r"\b", str(e))]
-        err = [type(e).__name__, names[0] if len(names) == 1 else names]
+        err = type(e).__name__  # the message text is not part of the property
     sig = "lambda/ctor"
     bad = sum(1 for tag, a in zip(SLOTS, args) if a is not None and (a[0] == "nc" or a[2] != SLOT_ARGS[tag]))
-    ctx.count(f"ctor:{'ok' if exp is None else exp[0]}")
+    ctx.count(f"ctor:{'ok' if exp is None else exp}")
     ctx.count(f"ctor:offending_args={min(bad, 2)}{'+' if bad > 2 else ''}")
     for a in args:
         ctx.count("ctor:arg=" + ("None" if a is None else "non-callable" if a[0] == "nc" else f"fn/{a[1]}"))
     ctx.oracle("LambdaCallback(...) raises exactly for the first argument that is not None / not a callable with the event's number of "
-               "parameters (TypeError if not callable, ValueError if the count is wrong), naming it", err == exp, case,
+               "parameters (TypeError if not callable, ValueError if the count is wrong)", err == exp, case,
                detail={"impl": err, "expected": exp}, sig=f"{sig}/validation", theorem="C12_lambda_init")
     if cb is not None and exp is None:
-        ok_slots, ok_noop = True, True
-        for j, (tag, f) in enumerate(zip(SLOTS, fns)):
+        # behaviour, not identity: calling cb.on_<slot>(event's arguments) runs the caller's function for THAT slot exactly once with
+        # those arguments (forms whose signature accepts the positional call) / does nothing and returns None for a slot left None
+        during_ctor = list(received)
+        ok_slots, ok_noop, impl_h = True, True, []
+        for j, (tag, f, a) in enumerate(zip(SLOTS, fns, args)):
             h = getattr(cb, SLOT_NAME[tag])
-            if f is not None:
-                ok_slots = ok_slots and h is f
-            else:  # the default handler accepts the event's arguments, returns None and does nothing
+            del received[:]
+            if f is None:
                 try:
-                    ok_noop = ok_noop and h(*range(SLOT_ARGS[tag])) is None
+                    ok_noop = ok_noop and h(*range(SLOT_ARGS[tag])) is None and received == []
                 except Exception:
                     ok_noop = False
-        ctx.oracle("each slot holds the caller's function for THAT slot; a slot left None holds a no-op accepting the event's arguments",
-                   ok_slots and ok_noop and isinstance(cb, CallbackBase) and received == [], case,
-                   detail={"slots_ok": ok_slots, "noop_ok": ok_noop, "calls_during_construction": received[:4]},
+                impl_h.append(None)
+            elif a[1] in ("pos", "def", "var", "partial", "method", "obj"):
+                try:
+                    h(*range(SLOT_ARGS[tag]))
+                except Exception:  # e.g. another slot's function sits here and does not take this event's arguments
+                    ok_slots = False
+                ok_slots = ok_slots and received == [[j, SLOT_ARGS[tag]]]
+                impl_h.append(received[0][0] if received else "?")
+            else:  # kw / kwonly / pkw forms cannot be called positionally with the event's arguments: only their acceptance is judged
+                impl_h.append(j)
+        ctx.oracle("each slot runs the caller's function for THAT slot; a slot left None is a no-op accepting the event's arguments",
+                   ok_slots and ok_noop and isinstance(cb, CallbackBase) and during_ctor == [], case,
+                   detail={"slots_ok": ok_slots, "noop_ok": ok_noop, "calls_during_construction": during_ctor[:4]},
                    sig=f"{sig}/slots", theorem="C12_lambda_init")
     if ctx.driver is not None:
         m = ctx.driver.call("c12.lambda_init", args=margs)
-        ctx.point("constructor outcome", "property", err, [m["error"], m["slot"]] if "error" in m else None, case, exact=True,
+        ctx.point("constructor outcome (exception type)", "property", err, m.get("error"), case, exact=True,
                   sig=f"{sig}/outcome", theorem="C12_lambda_init")
-        if cb is not None and "handlers" in m:
-            impl_h = [next((j for j, f in enumerate(fns) if f is not None and getattr(cb, SLOT_NAME[tag]) is f), None) for tag in SLOTS]
-            ctx.point("function installed per slot", "property", impl_h, m["handlers"], case, exact=True, sig=f"{sig}/handlers",
+        if cb is not None and exp is None and "handlers" in m:
+            ctx.point("function run per slot", "property", impl_h, m["handlers"], case, exact=True, sig=f"{sig}/handlers",
                       theorem="C12_lambda_init")
     ctx.case(case, nontrivial=any(a is not None for a in args),
              sample={"ctor": args, "expected": exp})
